@@ -59,7 +59,7 @@ import (
 
 const ruleText = "seq: case = fresh registry with 2-3 images x 1-4 eStargz layers (sometimes one plain layer) and one sequence of 8-36 operations " +
 	"(use, release, lookup diff/blob/info, read through a held layer, resolver-cache expiry, registry fault, heal) over 3-8 (ref, digest) pairs incl. unknown digests, " +
-	"plus an epilogue that releases everything and looks every used image up again; the first 18 cases are fixed minimal scenarios. " +
+	"plus an epilogue that releases everything and looks every used image up again; the first 20 cases are fixed minimal scenarios; in 2 of 3 random cases two of the images are two tags of ONE repository with different layer sets, often with a digest-pinned reference to one of them as a further image. " +
 	"conc: 3-6 clients x 6-16 operations on one manager (balanced use/lookup/read/release blocks, unowned lookups, cold racing lookups, optional fault window). " +
 	"fuse: the same sequences as syscalls on a real store.Mount tree. " +
 	"non-trivial = (seq, fuse) the image of some pair was looked up successfully while in use, released down to zero uses, and looked up again afterwards on a healthy registry; " +
